@@ -403,12 +403,17 @@ def module_job(arg):
     info = {'generators': how, 'projections': [proj_text(p) for p in projs], 'corpus_valid': len(canon)}
     if not projs or not canon:
         return {'module': vlabel, 'info': info, 'dist': dist, 'cases': 0, 'nontrivial': 0, 'sites': [], 'samples': []}
+    canon = _chk.diverse(canon)      # every length / shape of the corpus survives the cap below
     if tier == 'quick':
         seeds = canon[:200]
         nsynth = 6000
     else:
         seeds = canon
         nsynth = 60000
+    # length-/letter-extremal valid numbers (common.extremal_numbers) are seeds as well
+    for x in common.extremal_numbers(modname):
+        if val(x)[:2] == ('ok', x) and x not in seeds:
+            seeds.append(x)
 
     fails_a = set()
 
@@ -629,7 +634,7 @@ def module_job(arg):
     lengths = set(len(n) for n in seeds)
     bad_lengths = {}
     per_length = {}
-    for n in seeds + [x for x in common.extremal_numbers(modname) if val(x)[:2] == ('ok', x)]:
+    for n in seeds:
         per_length.setdefault(len(n), [])
         if len(per_length[len(n)]) < (2 if tier == 'quick' else 6):
             per_length[len(n)].append(n)
